@@ -225,6 +225,16 @@ func (p c18Prop) Gen(seed uint64, tier string, i int) Case {
 		}
 		c.Engine.Opt = "none"
 	}
+	if r.P(0.05) {
+		// a narrower and a broader select of one metric, merged by the default optimizers: several
+		// operators of the plan then read one pooled series list
+		c.Query = Pick(r, []string{`m0{a="x"} / m0`, `m0{a=~"x|y"} * on(a, b, c) m0`, `sum(m0{b="x"}) / sum(m0)`, `m0 - on(a, b, c) m0{c!="z"}`,
+			`rate(m0{a!="y"}[1m]) + on(a, b, c) m0`, `sum by (a) (m0{b!="y"}) / on(a) sum by (a) (m0)`, `m1{a="x"} + on(a, b, c) m1`})
+		c.Engine.Opt = Pick(r, []string{"default", "all", "merge"})
+		c.Engine.Procs = Pick(r, []int{4, 6, 8, 12, 16})
+		c.NParts = 0
+		c.Parts = nil
+	}
 	if r.P(0.33) {
 		c.Extra = map[string]any{"perturb": float64(1 + r.Uint64()%1000000)}
 	}
